@@ -25,7 +25,8 @@ CHECK = {
                      "ClusterVerif/Lemmas/C08Query.lean", "ClusterVerif/Lemmas/C08Total.lean", "ClusterVerif/Lemmas/C08Eq.lean",
                      "ClusterVerif/Model/C08Prod.lean", "ClusterVerif/Lemmas/C08Prod.lean", "ClusterVerif/Gen/C08Pb.lean",
                      "ClusterVerif/Gen/C08Prod.lean", "ClusterVerif/Model/C08Add.lean", "ClusterVerif/Lemmas/C08Add.lean",
-                     "ClusterVerif/Gen/C08Add.lean"],
+                     "ClusterVerif/Gen/C08Add.lean", "ClusterVerif/Lemmas/C08AddDec.lean", "ClusterVerif/Model/C08Util.lean",
+                     "ClusterVerif/Lemmas/C08Util.lean"],
     "rule": "roundtrip: a record type (Pin 40%, PinOptions 10%, AddParams in its query form 10%, state dump 4%, the other 20 records uniformly) x one of the formats the system "
             "uses for it x a value drawn by a reflection-based generator with field-aware pools (all pin types, depths -1/0/1/2 and odd ones, "
             "0-4 allocations (elements may be the empty peer ID), references nil / defined / pointing to cid.Undef, cid.Undef in every CID field,  0-3 origins with and without /p2p/, metadata incl. empty key/value, reference/update CIDs of both CID versions, "
